@@ -200,6 +200,7 @@ class World:
         self.switched = False
         self.trace = []
         self.sleeps = 0
+        self.slept = 0.0                  # total duration handed to time.sleep
 
     def cur_state(self):
         return self.state if self.switched else "alive"
@@ -513,6 +514,7 @@ class TimeProxy:
         w = self._emu.world
         if w is not None:
             w.sleeps += 1
+            w.slept += s
         self._t += s
 
     def monotonic(self):
@@ -784,6 +786,8 @@ class Emu:
             self.world = None
             self.in_terminal = False
         obs["sleeps"] = w.sleeps
+        if w.sleeps:
+            obs["slept"] = round(w.slept, 6)
         return obs, w.trace
 
     def call(self, fn, *a, world=None, **kw):
